@@ -216,7 +216,7 @@ fn do_gen(fields: &[&str], z: &ZobristHasher, out: &mut dyn Write) {
     let fen = fields[2];
     let chain = if fields.len() > 3 { fields[3] } else { "" };
     let r = catch_unwind(AssertUnwindSafe(|| -> Result<(String, String), String> {
-        let root = BoardState::from_fen(fen).map_err(|e| format!("badfen:{}", e))?;
+        let root = BoardState::from_fen(fen).map_err(|_| "badfen".to_string())?;
         // the chain is always followed through full generation except in capture mode,
         // where it is followed through capture-only generation (as quiescence does)
         let cur = follow_chain(&root, chain, mode, z)?;
@@ -251,6 +251,45 @@ fn do_gen(fields: &[&str], z: &ZobristHasher, out: &mut dyn Write) {
         Err(_) => {
             writeln!(out, "I gen PANIC").unwrap();
             writeln!(out, "P gen PANIC").unwrap();
+        }
+    }
+}
+
+fn do_replay(fields: &[&str], z: &ZobristHasher, out: &mut dyn Write) {
+    // replay <fen> <chain>: every generated move, printed as text and replayed through make_move
+    let fen = fields[1];
+    let chain = if fields.len() > 2 { fields[2] } else { "" };
+    let r = catch_unwind(AssertUnwindSafe(|| -> Result<(usize, Vec<String>), String> {
+        let root = BoardState::from_fen(fen).map_err(|_| "badfen".to_string())?;
+        let cur = follow_chain(&root, chain, MoveGenerationMode::AllMoves, z)?;
+        let succ = generate_moves(&cur, MoveGenerationMode::AllMoves, z);
+        let mut bad = Vec::new();
+        for s in succ.iter() {
+            let text = bestmove_text(s);
+            let mut b2 = cur.clone();
+            let ok = catch_unwind(AssertUnwindSafe(|| uci::verif_make_move(&mut b2, &text, z))).is_ok();
+            let same = ok
+                && proj(&b2) == proj(s)
+                && b2.white_king_location == s.white_king_location
+                && b2.black_king_location == s.black_king_location;
+            if !same {
+                bad.push(format!("{}:{}!={}", text, if ok { proj(&b2) } else { "PANIC".to_string() }, proj(s)));
+            }
+        }
+        Ok((succ.len(), bad))
+    }));
+    match r {
+        Ok(Ok((n, bad))) => {
+            writeln!(out, "I replay n={} bad={}", n, bad.join(",")).unwrap();
+            writeln!(out, "P replay bad={}", bad.join(",")).unwrap();
+        }
+        Ok(Err(e)) => {
+            writeln!(out, "I replay {}", e).unwrap();
+            writeln!(out, "P replay {}", e).unwrap();
+        }
+        Err(_) => {
+            writeln!(out, "I replay PANIC").unwrap();
+            writeln!(out, "P replay PANIC").unwrap();
         }
     }
 }
@@ -481,6 +520,7 @@ fn main() {
         match fields[0] {
             "gen" => do_gen(&fields, &z, &mut out),
             "fen" => do_fen(&fields, &mut out),
+            "replay" => do_replay(&fields, &z, &mut out),
             "eval" => do_eval(&fields, &mut out),
             "chk" => do_chk(&fields, &mut out),
             "pos" => do_pos(&fields, &z, &mut out),
